@@ -657,11 +657,12 @@ class Stmts(Exec):
             if _isR(itv): out.append((x, itv)); continue
             for x2, lv in self.to_list(x, itv, s):
                 if _isR(lv): out.append((x2, lv)); continue
-                out.extend(self.for_list(s, x2, lv, spec, ordn, old))
+                live = itv if (isinstance(itv.t, ListT) and itv.ref is not None and not isinstance(itv.ref, tuple) and is_mutable(itv.t.elem)) else None
+                out.extend(self.for_list(s, x2, lv, spec, ordn, old, live))
         return out
     st_AsyncFor = None
 
-    def for_list(self, s, st, lv, spec, ordn, old):
+    def for_list(self, s, st, lv, spec, ordn, old, live=None):
         """lv: python list of V (unrolled) or V of ListT (symbolic length, invariant cut)."""
         out = []
         if isinstance(lv, list):
@@ -693,9 +694,15 @@ class Stmts(Exec):
         h.frames[-1][kname] = V(INT, k)
         h.frames[-1]['__iter%s' % ordn] = V(t, L)
         self.assume_inv_k(h, spec, old, k, L)
+        if live is not None:
+            # list of mutable elements iterated in place: the elements are write-through references into the list cell;
+            # the list keeps its length (the invariant must describe its content after k iterations)
+            Lh = h.heap[live.ref]
+            h.assume(list_len(t, Lh) == n)
         for y, val in self.branch(h, k < n, 'for@%s' % s.lineno):
             if val:
-                item = self.load_val(y, t.elem, list_get(t, L, k))
+                if live is not None: item = V(t.elem, None, ('listitem', live.ref, k, t))
+                else: item = self.load_val(y, t.elem, list_get(t, L, k))
                 for y2, o in self.assign(y, s.target, item):
                     if o is not NORMAL: out.append((y2, o)); continue
                     for w, o2 in self.exec_block(s.body, y2):
